@@ -27,7 +27,7 @@ ASSUMPTIONS = [
     'hierarchies CPython rejects and root modules named like summary pages are outside the alphabet',
 ]
 FLOOR = {'quick': 300, 'thorough': 1500}
-SPACE = {'quick': 'histories <= 3 over 37 events x 2 schedules', 'thorough': 'histories <= 4 over 37 events x 2 schedules'}
+SPACE = {'quick': 'histories <= 3 over 39 events x 2 schedules', 'thorough': 'histories <= 4 over 39 events x 2 schedules'}
 
 EVENTS: Dict[str, List[Tuple[str, str]]] = {
     'defC':   [('a', 'class X:\n    def m(self): pass\n')],
@@ -72,6 +72,8 @@ EVENTS: Dict[str, List[Tuple[str, str]]] = {
     'move-onto-local': [('p', 'class X:\n    def inp(self): pass\n'), ('a', 'from p import X\n__all__ = ["X"]\n')],
     'dup-root-module': [('r', 'class R1:\n    def m(self): pass\n'), ('r#2', 'class R2:\n    def n(self): pass\nfrom p.a import X as RX\n')],
     'dup-root-package': [('rp/x', 'class PX1:\n    def m(self): pass\n'), ('rp#2/x', 'class PX2:\n    def n(self): pass\n')],
+    'dotted-field': [('a', 'class X:\n    """\n    @ivar foo.bar: x\n    @type foo.bar: int\n    """\n    class foo:\n        bar = 1\n')],
+    'zope-attr-over-method': [('b', 'from zope.interface import Interface, Attribute\nclass IM(Interface):\n    def x(): pass\n    x = Attribute("doc")\n    y = Attribute("doc")\n    def y(): pass\n')],
     'rename-module': [('p', 'from . import a as amod\n__all__ = ["amod"]\n')],
     'zopeimp': [('b', 'from zope.interface import implementer\nfrom .a import IY\nfrom p import IY as IYY\n@implementer(IY)\nclass U1: pass\n@implementer(IYY)\nclass U2: pass\n')],
 }
